@@ -21,6 +21,9 @@ use std::borrow::Cow;
 pub use kind::{kind_utils, KindMatcher, KindMatcherError};
 pub use node_match::NodeMatch;
 pub use pattern::{Pattern, PatternError, PatternNode};
+#[cfg(feature = "verif-hooks")]
+#[doc(hidden)]
+pub use pattern::verif_hooks as pattern_hooks;
 #[cfg(feature = "regex")]
 pub use text::{RegexMatcher, RegexMatcherError};
 
